@@ -570,6 +570,30 @@ func main() {
 	}
 	w("/-- locked tableEngine methods whose body mentions `te.lock` other than in the opening `Lock(); defer Unlock()` -/")
 	w("def teLockWindows : List String := %s", leanList(reLock))
+	// … and the methods that replace the live table object (a call that takes no lock and writes into the table would be
+	// forgotten if a locked step swapped the table for a copy made earlier: D31)
+	replaces := []string{}
+	for _, fd := range methodsOf(teFiles, "tableEngine") {
+		if fd.Body == nil {
+			continue
+		}
+		hit := false
+		ast.Inspect(fd.Body, func(x ast.Node) bool {
+			if as, ok := x.(*ast.AssignStmt); ok {
+				for _, l := range as.Lhs {
+					if src(l) == "te.table" {
+						hit = true
+					}
+				}
+			}
+			return true
+		})
+		if hit {
+			replaces = append(replaces, fd.Name.Name)
+		}
+	}
+	w("/-- tableEngine methods that assign `te.table` (replace the live table object) -/")
+	w("def teTableAssigned : List String := %s", leanList(replaces))
 	smLocked := []string{}
 	smRLocked := []string{}
 	for _, fd := range methodsOf([]*ast.File{smImpl, smInternal}, "seatManager") {
